@@ -15,7 +15,9 @@
 (***************************************************************************)
 EXTENDS Addr, Json, IOUtils
 
-Recs == ndJsonDeserialize(IOEnv.TRACE)
+\* parsed once at start-up into a TLC register (TLC re-evaluates a definition that reads a file on every reference)
+ASSUME TLCSet(7, ndJsonDeserialize(IOEnv.TRACE))
+Recs == TLCGet(7)
 Verdict(rec) ==
   LET r == Parse(rec.fam, rec.text)
       good ==
